@@ -14,7 +14,7 @@ import time
 import uuid
 from concurrent.futures import ThreadPoolExecutor
 
-from .common import SPEC, MachineryError, NCPU, outdir
+from .common import SPEC, VERIF, MachineryError, NCPU, outdir
 
 JAR = '/opt/veriftools/tla/tla2tools.jar'
 DEPS = '/opt/veriftools/tla/CommunityModules-deps.jar'
@@ -278,7 +278,9 @@ def cached_export(module, cfg, **kw):
     for f in sorted(spec_closure(module)) + [os.path.join(SPEC, cfg)]:
         with open(f, 'rb') as fh:
             h.update(fh.read())
-    d = outdir('cache')
+    d = os.path.join(VERIF, 'out', 'cache')          # shared by side runs too
+    if not os.path.isdir(d):
+        os.makedirs(d)
     # drop results of older versions of this specification
     for old in glob.glob(os.path.join(d, '%s_%s_*.json.gz' % (module, cfg.replace('.cfg', '')))):
         if h.hexdigest()[:16] not in old:
